@@ -361,6 +361,12 @@ func (t *stdioClientTransport) readLoop() {
 			t.logger.Warnf("Unexpected message type: %s", msgType)
 		}
 	}
+
+	// The server's stdout has ended: no answer can arrive any more. Fail the pending calls now
+	// instead of letting each of them run into its timeout.
+	if !t.closed.Load() {
+		t.cancel()
+	}
 }
 
 // handleResponse handles JSON-RPC responses.
